@@ -131,7 +131,7 @@ def cases(tier, cfg, seed):
         for shape, osh in ([((4, 9), (2, 4)), ((3, 8), (3, 8))] if tier == 'quick' else
                            [((4, 9), (2, 4)), ((5, 5), (3, 2)), ((3, 8), (3, 8)), ((4, 9), (4, 3)), ((9, 17), (4, 8)), ((5, 9), (5, 5)), ((6, 6), (2, 6)), ((8, 8), (4, 4))]):
             add(DynSlice(T, shape, osh))
-        if tier != 'quick' or T == 'double': add(DynSlice(T, (4, 9), (2, 4), expr=True))
+        if tier != 'quick': add(DynSlice(T, (4, 9), (2, 4), expr=True))
         if T == 'double' and tier != 'quick': add(DynSlice(T, (3, 4, 5), (2, 2, 3)))
         # compile-time ranges 1-D
         for N in ((6, 9) if tier == 'quick' else (4, 6, 9, 17)):
